@@ -62,10 +62,10 @@ PROPS = {
     "C02": {
         "suites": ["c02"],
         "level": "proof",
-        "proof_module": "GeoProofs.Props.C02Jordan",
-        "theorems": ["Geo.rect_intersects_rect_iff", "Geo.rect_intersects_rect_illformed", "Geo.rect_intersects_symm", "Geo.lineIntersectsLine_iff", "Geo.lineIntersectsLine_symm", "Geo.lineIntersectsLine_iff_mk", "Geo.point_intersects_iff", "Geo.point_intersects_line_iff", "Geo.point_intersects_rect_spec", "Geo.geom_intersects_symm_pointrect", "Geo.geom_intersects_dispatch_symm", "Geo.geom_intersects_symm_partial", "Geo.ringIntersectsSegment_sound", "Geo.ringIntersectsSegment_sound_mk", "Geo.vertex_on_segment", "Geo.ringIntersectsLine_sound", "Geo.ringIntersectsRing_sound", "Geo.edge_identity", "Geo.edge_flip", "Geo.parity_add_eq_crossings", "Geo.parity_const_of_avoids", "Geo.parity_flips_of_one_proper_crossing_idx", "Geo.parity_flips_of_one_proper_crossing", "Geo.inRing_const_of_avoids", "Geo.segment_outside_of_avoids", "Geo.segment_inside_of_avoids", "Geo.region_meets_segment_iff"],
+        "proof_module": "GeoProofs.Props.C02All",
+        "theorems": ["Geo.rect_intersects_rect_iff", "Geo.rect_intersects_rect_illformed", "Geo.rect_intersects_symm", "Geo.lineIntersectsLine_iff", "Geo.lineIntersectsLine_symm", "Geo.lineIntersectsLine_iff_mk", "Geo.point_intersects_iff", "Geo.point_intersects_line_iff", "Geo.point_intersects_rect_spec", "Geo.geom_intersects_symm_pointrect", "Geo.geom_intersects_dispatch_symm", "Geo.geom_intersects_symm_partial", "Geo.ringIntersectsSegment_sound", "Geo.ringIntersectsSegment_sound_mk", "Geo.vertex_on_segment", "Geo.ringIntersectsLine_sound", "Geo.ringIntersectsRing_sound", "Geo.edge_identity", "Geo.edge_flip", "Geo.parity_add_eq_crossings", "Geo.parity_const_of_avoids", "Geo.parity_flips_of_one_proper_crossing_idx", "Geo.parity_flips_of_one_proper_crossing", "Geo.inRing_const_of_avoids", "Geo.segment_outside_of_avoids", "Geo.segment_inside_of_avoids", "Geo.region_meets_segment_iff", "Geo.ringIntersectsSegment_exact_all", "Geo.ringIntersectsSegment_exact_indexed", "Geo.ringIntersectsSegment_exact", "Geo.ringIntersectsSegment_two_edges", "Geo.rectRingIntersectsSegment_exact", "Geo.rectRing_region", "Geo.rectRing_illformed", "Geo.ringIntersectsLine_exact_all", "Geo.ringIntersectsLine_exact", "Geo.rectRingIntersectsLine_exact", "Geo.ringIntersectsRing_exact_all", "Geo.ringIntersectsRing_exact", "Geo.rectRingIntersectsRing_exact", "Geo.regions_share_iff", "Geo.spec_meets_iff", "Geo.geom_intersects_iff_noholes", "Geo.geom_intersects_exact_noholes", "Geo.geom_intersects_symm_noholes", "Geo.ringContainsRing_strict_exact", "Geo.spec_meets_iff_holes", "Geo.geom_intersects_exact_holes_of_convexOK", "Geo.geom_intersects_symm_holes_of_convexOK", "Geo.holesConvexOK_of_nonconvex", "Geo.geom_intersects_exact_holes_of_nonconvex", "Geo.IX.convexOK_rect", "Geo.IX.two_edges_of_meets", "Geo.IX.regions_disjoint_of_boundaries_out", "Geo.IX.strict_nesting_rect", "Geo.IX.rect_filled_strict", "Geo.IX.region_inside_of_boundary_inside"],
         "trivial_sigs": set(),
-        "claim": "Partial proof (Lean 4): rect x rect and point x anything exact, line x line exact and symmetric (un-indexed), soundness of every `true` of ring x segment/line/ring, dispatch-level symmetry for all kind pairs except Poly x Poly; completeness of `false` answers of ring x segment is a discrete Jordan-curve statement that is NOT proved. Decided for the rest by model<->implementation correspondence plus the exact executable specification (Spec.meets) on generated valid shapes in contact configurations.",
+        "claim": "Proof (Lean 4): for un-indexed shapes, intersects equals the exact specification (share a point) for ALL 16 kind pairs of valid shapes without holes, and with holes whenever every hole ring is non-convex-flagged, rectangular, or satisfies the stated convexity hypothesis ConvexOK (geom_intersects_exact_noholes, geom_intersects_exact_holes_of_convexOK, symmetry as corollary); ring x segment/line/ring exactness holds for every vertex list, via the discrete Jordan lemma (parity constant along an avoiding segment, flips across one proper crossing) which is proved from a per-edge identity. NOT proved: that a ring whose turns all have the same orientation bounds a convex region (enters only as ConvexOK), and the lift of the region-level theorems to indexed series beyond ring x segment. Tie: model<->implementation correspondence plus the executable specification on generated valid shapes in contact configurations, both operand orders, 5 index configurations.",
         "rule": "sampled (thorough: all) ordered pairs of small shapes on the 3x3 lattice; generated polygons (rectangles, notched, "
                 "star-shaped, with holes) against probes built from their vertices, edge midpoints and nearby lattice points, both operand "
                 "orders, 5 index configurations; non-trivial = distinct pair judged by the exact oracle (both shapes valid)",
